@@ -828,6 +828,8 @@ class Lib:
     # ----------------------------------------------------- attribute / methods
     def lib_getattr(self, ref, name):
         d = ref.dotted + '.' + name
+        if d == 'numpy.pi':
+            return math.pi
         if d in ('numpy.nan', 'numpy.NaN'):
             return NAN
         if d in ('numpy.inf', 'numpy.Inf', 'numpy.infty'):
@@ -2173,6 +2175,14 @@ def _log10(L, x):
 @model('numpy.exp')
 def _exp(L, x):
     return _ufunc(L, x, EXP, math.exp)
+
+
+COS = z3.Function('cosine', z3.RealSort(), z3.RealSort())
+
+
+@model('numpy.cos')
+def _cos(L, x):
+    return _ufunc(L, x, COS, math.cos)
 
 
 @model('numpy.expm1')
